@@ -7,7 +7,7 @@ from z3 import And, If, Implies, Not, Or
 from pyvc import logic as L
 from pyvc.contract import contract
 from .vocab import *  # noqa: F401,F403
-from .registry import NODE_FIELDS, TREE_FIELDS, fields_same_except
+from .registry import NODE_FIELDS, TREE_FIELDS, fields_same_except, obs_dicts_unchanged
 from .mutators import obs_unchanged_but_fresh
 
 NQ = "nutree.node.Node."
@@ -59,3 +59,66 @@ def _lock_contract(qual, delta):
 
 _lock_contract(TQ + "__enter__", +1)
 _lock_contract(TQ + "__exit__", -1)
+
+
+@contract(NQ + "_make_list_entry", props=("C12", "C05"))
+def _(c):
+    """payload of one node in the flat (save) format, before the mapper and the key/value maps:
+    a plain-string node with the default id is the string itself; otherwise a fresh dict holding 'str' (string data
+    only) and 'data_id' exactly when the id is not hash(data) -- a *falsy* custom id (0, '') included."""
+    c.param("cls", "cls:Node").param("node", "node")
+    c.families = ("plain",)
+    c.result_tag = "any"
+    c.result_alternatives = ("val", "dref")
+    c.modifies("ddom", "dval", "dcard", "dalloc")
+    c.requires("node is allocated", lambda x: x.a.node != NONE)
+
+    def post(x):
+        h0, h, n = x.h0, x.h, x.a.node
+        data, did = h0._data(n), h0._data_id(n)
+        custom = Not(L.v_eq(did, L.v_hash(data)))
+        is_str = L.v_is_str(data)
+        from pyvc.exprs import str_const
+
+        kS, kI = str_const("str"), str_const("data_id")
+        k = L.fresh("k", L.Val)
+        if x.res.tag != "dref":  # the plain string
+            return And(is_str, Not(custom), x.r == data)
+        d = x.r
+        return And(d != DNONE, Not(h0.dalloc(d)), Or(Not(is_str), custom),
+                   h.ddom(d, kS) == is_str, Implies(is_str, h.dval(d, kS) == data),
+                   h.ddom(d, kI) == custom, Implies(custom, h.dval(d, kI) == did),
+                   ForAll([k], Implies(h.ddom(d, k), Or(k == kS, k == kI)), patterns=[h.ddom(d, k)]))
+
+    c.ensures("str node with default id -> the string; else fresh dict with 'str' iff string data and 'data_id' iff custom id", post)
+    c.ensures("dicts that existed are unchanged", lambda x: obs_dicts_unchanged(x, pre_existing_only=True))
+
+
+@contract("nutree.typed_tree.TypedNode._make_list_entry", props=("C12", "C05"))
+def _(c):
+    """typed payload: always a fresh dict; 'str' iff string data, 'data_id' iff the id is not hash(data), 'kind' = the node's kind"""
+    c.param("cls", "cls:TypedNode").param("node", "node")
+    c.families = ("typed",)
+    c.prune = True  # the base entry of non-string data is never the plain-string form
+    c.result_tag = "dref"
+    c.modifies("ddom", "dval", "dcard", "dalloc")
+    c.requires("node is a typed node with a kind", lambda x: And(x.a.node != NONE, L.cls_of(x.a.node) == L.CLS["TypedNode"], x.h0._kind(x.a.node) != ANY_KIND, x.h0._kind(x.a.node) != VNONE, L.v_is_str(x.h0._kind(x.a.node))))
+
+    def post(x):
+        h0, h, n = x.h0, x.h, x.a.node
+        data, did = h0._data(n), h0._data_id(n)
+        custom = Not(L.v_eq(did, L.v_hash(data)))
+        is_str = L.v_is_str(data)
+        from pyvc.exprs import str_const
+
+        kS, kI, kK = str_const("str"), str_const("data_id"), str_const("kind")
+        k = L.fresh("k", L.Val)
+        d = x.r
+        return And(d != DNONE, Not(h0.dalloc(d)),
+                   h.ddom(d, kS) == is_str, Implies(is_str, h.dval(d, kS) == data),
+                   h.ddom(d, kI) == custom, Implies(custom, h.dval(d, kI) == did),
+                   h.ddom(d, kK), h.dval(d, kK) == h0._kind(n),
+                   ForAll([k], Implies(h.ddom(d, k), Or(k == kS, k == kI, k == kK)), patterns=[h.ddom(d, k)]))
+
+    c.ensures("fresh dict with 'str' iff string data, 'data_id' iff custom id, 'kind'", post)
+    c.ensures("dicts that existed are unchanged", lambda x: obs_dicts_unchanged(x, pre_existing_only=True))
